@@ -199,23 +199,31 @@ class DerivedFamily(Family):
                     yield (name, perm)
             else:
                 yield (name, sub)
+            if k <= 3:
+                yield (name, sub, 'wide-map')   # caller supplies a device-wide qubit -> channel map
 
     def describe(self, tier):
         return {n: len(pool_of(c())) for n, c in LAYOUTS.items()}
 
     def run(self, case):
-        name, sub = case
+        name, sub = case[0], case[1]
+        wide = len(case) > 2
         res = Res()
         lay = LAYOUTS[name]()
         ids = [QubitIDObj(q) for q in sub]
-        d = RepetitionCodeDescription.from_connectivity(ids, lay)
         n = len(sub)
+        if wide:
+            index_of = {q: 100 + i for i, q in enumerate(freq.QUBITS)}
+            d = RepetitionCodeDescription.from_connectivity(ids, lay, qubit_index_map={QubitIDObj(q): i for q, i in index_of.items()})
+        else:
+            index_of = {q: i for i, q in enumerate(sub)}
+            d = RepetitionCodeDescription.from_connectivity(ids, lay)
         cmap = d.circuit_channel_map
-        if sorted(cmap.keys()) != list(range(n)) or sorted(v.id for v in cmap.values()) != sorted(sub):
-            res.fail('C17-index-map', '%s %r: channel map %r is not a bijection onto 0..%d' % (name, sub, {k: v.id for k, v in cmap.items()}, n - 1))
-        for i, q in enumerate(sub):
-            if d.get_index(QubitIDObj(q)) != i or d.get_element(i).id != q:
-                res.fail('C17-index-order', '%s %r: qubit %s is not at circuit index %d' % (name, sub, q, i))
+        if sorted(cmap.keys()) != sorted(index_of[q] for q in sub) or sorted(v.id for v in cmap.values()) != sorted(sub):
+            res.fail('C17-index-map', '%s %r: channel map %r is not a bijection between the involved qubits and their circuit indices' % (name, sub, {k: v.id for k, v in cmap.items()}))
+        for q in sub:
+            if d.get_index(QubitIDObj(q)) != index_of[q] or d.get_element(index_of[q]).id != q:
+                res.fail('C17-index-order', '%s %r: qubit %s is not at circuit index %d' % (name, sub, q, index_of[q]))
         if sorted(x.id for x in d.data_qubit_ids) != sorted(q for q in sub if q not in freq.PLAQUETTES) or sorted(x.id for x in d.ancilla_qubit_ids) != sorted(q for q in sub if q in freq.PLAQUETTES):
             res.fail('C17-roles', '%s %r: data %r ancilla %r' % (name, sub, [x.id for x in d.data_qubit_ids], [x.id for x in d.ancilla_qubit_ids]))
         if len(d.gate_sequences) != lay.gate_sequence_count:
@@ -232,13 +240,13 @@ class DerivedFamily(Family):
             parks = layer_parks(layer)
             judge_layer(res, '%s %r layer %d' % (name, sub, i), got, parks)
             gi = d.get_gate_sequence_indices(i)
-            want_gi = [(sub.index(op.identifier.qubit_ids[0].id), sub.index(op.identifier.qubit_ids[1].id)) for op in layer.gate_operations
+            want_gi = [(index_of[op.identifier.qubit_ids[0].id], index_of[op.identifier.qubit_ids[1].id]) for op in layer.gate_operations
                        if all(q.id in sub for q in op.identifier.qubit_ids)]
             if gi != want_gi:
                 res.fail('C17-gate-indices', '%s %r layer %d: gate indices %r expected %r' % (name, sub, i, gi, want_gi))
             pi = d.get_park_sequence_indices(i)
-            need = sorted(sub.index(q) for q in sub if freq.requires_parking(q, got)) if freq.disjoint(got) else []
-            if any(p not in range(n) for p in pi):
+            need = sorted(index_of[q] for q in sub if freq.requires_parking(q, got)) if freq.disjoint(got) else []
+            if any(p not in [index_of[q] for q in sub] for p in pi):
                 res.fail('C17-park-indices', '%s %r layer %d: park index outside the circuit: %r' % (name, sub, i, pi))
             if any(p not in pi for p in need):
                 res.fail('C17-park-indices-missing', '%s %r layer %d: park indices %r, required %r' % (name, sub, i, pi, need))
